@@ -14,14 +14,14 @@ Record tx_table_facts : Prop := {
   tf_I : codec_of streamer_table "I"%char = Some KVARINT;
   tf_S : codec_of streamer_table "S"%char = Some KVARSTR;
   tf_b : codec_of streamer_table "b"%char = Some KBOOL;
-  tf_txin_s : chars txin_stream_fmt = ["#"; "L"; "S"; "L"]%char;
-  tf_txin_p : chars txin_parse_fmt = ["#"; "L"; "S"; "L"]%char;
-  tf_txout_s : chars txout_stream_fmt = ["Q"; "S"]%char;
-  tf_txout_p : chars txout_parse_fmt = ["Q"; "S"]%char;
-  tf_sp_s : chars spendable_stream_fmt = ["#"; "L"; "I"; "b"; "I"]%char;
-  tf_sp_p : chars spendable_parse_fmt = ["Q"; "S"; "#"; "L"; "I"; "b"; "I"]%char;
-  tf_word : chars tx_word_fmt = ["L"]%char;
-  tf_count : chars tx_count_fmt = ["I"]%char;
+  tf_txin_s : txin_stream_fmt = ["#"; "L"; "S"; "L"]%char;
+  tf_txin_p : txin_parse_fmt = ["#"; "L"; "S"; "L"]%char;
+  tf_txout_s : txout_stream_fmt = ["Q"; "S"]%char;
+  tf_txout_p : txout_parse_fmt = ["Q"; "S"]%char;
+  tf_sp_s : spendable_stream_fmt = ["#"; "L"; "I"; "b"; "I"]%char;
+  tf_sp_p : spendable_parse_fmt = ["Q"; "S"; "#"; "L"; "I"; "b"; "I"]%char;
+  tf_word : tx_word_fmt = ["L"]%char;
+  tf_count : tx_count_fmt = ["I"]%char;
   tf_marker : tx_marker_flag = [x00; x01];
 }.
 Lemma table_facts : tx_table_facts.
